@@ -370,28 +370,47 @@ fn c17_request_credit_excludes_head_bytes() {
     kani::cover!(n <= skip, "C17.cover.credit_head_only");
 }
 
-/// (not instantiated in any tier: polling the async_trait future does not finish within 900 s)
+/// (not instantiated in any tier: polling the async_trait future does not finish within 900 s - also not for the states
+/// that await nothing, 3 and 5, measured again at 500 s; seeded change C17-f, which lives in wait_writable, is therefore not caught)
 /// wait_writable per state: immediate when the previous write only stopped at a framing boundary, delegated to the
 /// client-side sink inside a body, an error only where no response is in progress.
 fn wait_table<const KIND: usize, const FAKE: bool>() {
     prefix_sink::reset([0, 0, 0, 0]);
     let mut ps = ManuallyDrop::new(PrefixSink);
+    let mut mr = ManuallyDrop::new(crate::verif_env::mock::MockRespond);
     let state = match KIND {
         0 => SinkState::Idle,
         1 => SinkState::TransferringBodyNonEncoded(SinkTransferringBodyNonEncoded { sink: mk_sink(&mut ps), body_length: None, sent_bytes: 0 }),
         2 => SinkState::TransferringBodyChunked(SinkTransferringBodyChunked { sink: mk_sink(&mut ps), remaining_chunk_size: Some(1) }),
         3 => SinkState::WaitingChunkPrefix(SinkWaitingChunkPrefix { buffer: BytesMut::new(), sink: mk_sink(&mut ps) }),
+        // still waiting for the final response head (where an interim 1xx response leaves the sink)
+        5 => SinkState::WaitingResponse(SinkWaitingResponse {
+            headers_buffer: BytesMut::new(),
+            request_method: http::Method::GET,
+            request_version: http::Version::HTTP_11,
+            respond: stack_box::<crate::verif_env::mock::MockRespond>(&mut mr),
+        }),
         _ => SinkState::WaitingChunkSuffix(SinkWaitingChunkSuffix { buffer: BytesMut::new(), terminating_chunk: false, sink: mk_sink(&mut ps) }),
     };
     let mut s = ManuallyDrop::new(ForwardedStreamSink { state, fake_unsent: FAKE, id: log_utils::IdChain::empty() });
     let ok = wait_ok(&mut s);
-    assert!(ok == (FAKE || KIND != 0), "C17.wait.table: wait_writable must succeed in every body state and after a framing-only remainder");
+    if KIND == 5 {
+        // after an interim response the bytes that followed it are handed back with the flag set (reachable state);
+        // without the flag no response is in progress and nothing is demanded
+        if FAKE {
+            assert!(ok, "C17.wait.interim: wait_writable fails after an interim (1xx) response whose segment also carried the start of the final response: the exchange ends and the final response is lost");
+        }
+    } else {
+        assert!(ok == (FAKE || KIND != 0), "C17.wait.table: wait_writable must succeed in every body state and after a framing-only remainder");
+    }
     assert!(!s.fake_unsent, "C17.wait.flag: the framing-remainder flag must be consumed by wait_writable");
+    kani::cover!(ok, "C17.cover.wait_ok");
+    kani::cover!(!ok, "C17.cover.wait_err");
 }
 
 /*@gen
 {"name": "c17_wait_writable_state{0}_fake{1}", "call": "wait_table::<{0}, {1}>()", "unwind": 12, "stubs": ["bytes", "bytesmut", "fmt", "nofree"], "core": false,
- "bound": "state #{0} (0 Idle, 1 identity body, 2 chunk data, 3 chunk header, 4 chunk terminator), framing-remainder flag {1}",
+ "bound": "state #{0} (0 Idle, 1 identity body, 2 chunk data, 3 chunk header, 4 chunk terminator, 5 waiting for the response head), framing-remainder flag {1}",
  "desc": "wait_writable succeeds in every body state and after a framing-only remainder, and consumes the flag",
  "encodes": ["http_forwarded_stream::ForwardedStreamSink::wait_writable"],
  "quick": "[]", "thorough": "[]"}
